@@ -4,6 +4,7 @@ use crate::parser::InstructionProperties;
 use crate::parser::LabelStringToken;
 use crate::parser::ParserNode;
 use crate::parser::Register;
+use std::cell::Cell;
 use std::cell::Ref;
 use std::cell::RefCell;
 use std::collections::HashSet;
@@ -26,6 +27,10 @@ pub struct CfgNode {
     pub labels: HashSet<LabelStringToken>,
     /// Which segment is this node in?
     segment: Segment,
+    /// Position of this node in the program (index in the CFG's node list).
+    ///
+    /// Used to visit sets of nodes in a reproducible order.
+    order: Cell<usize>,
     /// CFG nodes that come after this one (forward edges).
     nexts: RefCell<HashSet<Rc<CfgNode>>>,
     /// CFG nodes that come before this one (backward edges).
@@ -88,6 +93,7 @@ impl CfgNode {
             node: RefCell::new(node),
             labels,
             segment,
+            order: Cell::new(0),
             nexts: RefCell::new(HashSet::new()),
             prevs: RefCell::new(HashSet::new()),
             function: RefCell::new(HashSet::new()),
@@ -99,6 +105,24 @@ impl CfgNode {
             live_out: RefCell::new(RegisterSet::new()),
             u_def: RefCell::new(RegisterSet::new()),
         }
+    }
+
+    /// Position of this node in the program.
+    #[must_use]
+    pub fn order(&self) -> usize {
+        self.order.get()
+    }
+
+    pub(crate) fn set_order(&self, order: usize) {
+        self.order.set(order);
+    }
+
+    /// The given set of nodes, in program order.
+    #[must_use]
+    pub fn in_program_order(set: &HashSet<Rc<CfgNode>>) -> Vec<Rc<CfgNode>> {
+        let mut nodes = set.iter().cloned().collect::<Vec<_>>();
+        nodes.sort_by_key(|n| n.order());
+        nodes
     }
 
     #[must_use]
